@@ -56,7 +56,7 @@ DUMP_SLICES = {
               ('report-pysnmp', 'pysnmp', 'Dom_report', 'Keep_report_q', 300)],
     'thorough': [('usage-json', 'json', 'Dom_usage', 'KeepAll', None), ('usage-pysnmp', 'pysnmp', 'Dom_usage', 'KeepAll', None),
                  ('status-json', 'json', 'Dom_status', 'KeepAll', None),
-                 ('graph-json', 'json', 'Dom_graph', 'KeepAll', None),
+                 ('graph-json', 'json', 'Dom_graph', 'Keep_graph_t', None),
                  ('report-json', 'json', 'Dom_report', 'KeepAll', None),
                  ('sources-json', 'json', 'Dom_sources', 'KeepAll', None),
                  ('dest-json', 'json', 'Dom_dest', 'KeepAll', None),
